@@ -94,10 +94,28 @@ def run_one(s):
     if not names and s.get("norm"):
         coords = c05.lattice(e, tid)
         pts = c05.to_points(e, coords)
-        r = watched(lambda: tp.models.NormalizationLayer(dom)(pts).as_tensor.detach())
+        layer_ = []
+
+        def first():
+            layer_.append(tp.models.NormalizationLayer(dom))
+            return layer_[0](pts).as_tensor.detach()
+        r = watched(first)
         if r[0] == "ok":
             tr["norm_exc"] = ""
             tr["norm"] = [{"q": U.q_of(c, {}), "out": fxv(o, 256)} for c, o in zip(coords, r[1])]
+            # the layer is a model: the same points presented with the variables in the opposite order (a sampler over I_t * A_x for a
+            # layer built from A_x * I_t) give the same images
+            vs_ = U.space_vars(e)
+            if len(vs_) >= 2:
+                def permuted():
+                    sp2 = Space({})
+                    for v in reversed(vs_):
+                        sp2 = sp2 * Space({v: U.SPACES[v]})
+                    data = torch.cat([pts.coordinates[v] for v in reversed(vs_)], dim=1)
+                    return layer_[0](Points(data, sp2)).as_tensor.detach()          # the SAME layer object
+                r2 = watched(permuted)
+                tr["norm_perm_exc"] = "" if r2[0] == "ok" else (r2[1] if len(r2) > 1 else "hang")
+                tr["norm_perm"] = [fxv(o, 256) for o in r2[1]] if r2[0] == "ok" else []
         else:
             tr["norm_exc"] = r[1] if len(r) > 1 else "hang"
     # partial evaluation
